@@ -317,6 +317,8 @@ class MixedEdgeGraph:
     def clear_edge_types(self):
         """Clear all edge types from graph."""
         self._edge_graphs.clear()
+        # the cached ``adj`` is keyed by edge type: recompute it on next access
+        self.__dict__.pop("adj", None)
 
     def __iter__(self):
         """Iterate over the nodes. Use: 'for n in G'.
@@ -594,6 +596,8 @@ class MixedEdgeGraph:
 
         # ensure new graph type has all nodes
         self._edge_graphs[edge_type] = graph
+        # the cached ``adj`` is keyed by edge type: recompute it on next access
+        self.__dict__.pop("adj", None)
 
         # if we have nodes already, or if we have an empty edge-type subgraph
         if self._node or self.edge_types:
@@ -608,6 +612,8 @@ class MixedEdgeGraph:
 
     def remove_edge_type(self, edge_type):
         self._edge_graphs.pop(edge_type)
+        # the cached ``adj`` is keyed by edge type: recompute it on next access
+        self.__dict__.pop("adj", None)
 
     def to_undirected(self):
         """Returns an undirected representation of the digraph.
